@@ -55,6 +55,17 @@ def extract_fgraph(spec, io=None):
         graph = _graph.results(**outputs)
         if not spec.get("drop"):
             graph = graph.with_arguments(*inputs.values())
+        if io is None and len(json.dumps(spec, sort_keys=True)) % 5 == 0:
+            # round 10: a fifth of the programs carry an extra requirement on the Graph itself (`with_opset`, the
+            # default domain under its other spelling, same version) - the `extra` of imports_agree_with_model_program
+            # at the version the model has anyway, so that no node is adapted differently (no new code paths of
+            # the version converter are entered; the built model is the same)
+            try:
+                cur = graph.get_opsets().get("")
+                if cur is not None:
+                    graph = graph.with_opset(("ai.onnx", cur))
+            except Exception:  # noqa: BLE001 - the ordinary path below reports what cannot be observed / built
+                pass
         try:
             opsets = graph.get_opsets()
         except (AttributeError, TypeError, NameError, ImportError) as e:
